@@ -89,4 +89,13 @@ def k9(drv):
                 for h in lg.handlers[:]: lg.removeHandler(h)
 
 
-WITNESSES = {'K9': k9, 'K8': k8, 'K1': k1, 'K2': k2, 'K3': k3, 'K5': k5, 'K6': k6, 'K7': k7}
+def k10(drv):
+    """a documented set() whose value is a run of equal punctuation characters: the field body is read as a transition"""
+    import s_rstcheck, docutils.nodes
+    with impl.Sandbox() as sb:
+        r = impl.real_pipeline(sb, '#[[[\n# A divider.\n#]]\nset(DIVIDER "--------")\n', impl.make_settings())
+    if 'rst' not in r: return True
+    return any(m['level'] >= 3 for m in s_rstcheck.parse(r['rst']).findall(docutils.nodes.system_message))
+
+
+WITNESSES = {'K10': k10, 'K9': k9, 'K8': k8, 'K1': k1, 'K2': k2, 'K3': k3, 'K5': k5, 'K6': k6, 'K7': k7}
